@@ -15,7 +15,8 @@ RULE = (
     "BinaryCarvers: classes sorted as strings; for each class c except the first a BinaryCarver with the same "
     "parameters is fitted on 1[str(y)==c] (fresh copies of every input); column f_c exists in "
     "MulticlassCarver.transform(X) iff that carver kept f and equals its transform(X)[f]; raw columns are present "
-    "and equal to the input; no other column appears. Non-trivial: >= 3 classes and some feature kept for one "
+    "and equal to the input; no other column appears; transforming a frame that already holds the class columns "
+    "(the previous output, or stale values) yields the same class columns. Non-trivial: >= 3 classes and some feature kept for one "
     "class (and, counted separately, dropped for another)."
 )
 BOUNDS = {"rows": "18-450", "classes": "3-5", "features": "1-3"}
@@ -118,6 +119,24 @@ def check_case(case) -> Outcome:
                     out.violate("class-column-differs-from-binary-carver", f"{col}: differs from BinaryCarver[{cl}] output, e.g. {pairs}; multiclass order {list(multi.values_orders.get(col, []))!r} vs binary {list(ref.values_orders[f])!r}")
             elif col in result.columns:
                 out.violate("class-column-present-though-dropped", f"{col}: BinaryCarver for class {cl!r} drops {f!r} but the column exists")
+    # the class columns are a function of the raw columns only: a frame that already carries them (the output of a
+    # previous transform, or stale copies) is given the same class columns again
+    class_cols = {f"{f}_{cl}": (f, cl) for cl, ref in refs.items() for f in raw_cols if f in ref.features and f"{f}_{cl}" in result.columns}
+    if class_cols:
+        for variant in ("retransform", "stale"):
+            frame = result.copy()
+            if variant == "stale":
+                for col, (f, _) in class_cols.items():
+                    frame[col] = sample.X[f].tolist()[::-1]
+            again = observe(multi.transform, frame)
+            if not again.ok:
+                out.violate(f"multiclass-transform-raised:{variant}:{again.bucket()}", f"transform of a frame that already holds class columns ({variant}) raised {again.exc!r}")
+                continue
+            for col, (f, cl) in class_cols.items():
+                if col not in again.value.columns or not columns_equal(again.value[col].tolist(), result[col].tolist()):
+                    out.violate(f"class-column-depends-on-existing-column:{variant}", f"{col}: transform of a frame already holding {col!r} ({variant}) differs from transform of the raw frame")
+                    break
+        out.label("frame-with-existing-class-columns")
     extra = [c for c in result.columns if c not in expected_cols]
     if extra:
         out.violate("unexpected-columns", f"unexpected columns {extra}")
